@@ -23,9 +23,13 @@ def run(ctx):
     return standard(ctx, "C17", ["model/C17_run.vo", "lib/Bytes63.vo"], stages, known_bits={4: "F11", 8: "F16", 16: "F18"},
                     rule="real directory trees under TMPDIR (depth <= 4, <= 40 entries, odd names, relative/absolute links, chains, "
                          "cycles, fifos) + 0-2 read-only collection mounts (C10 generator) + 0-2 secret mounts + optional excluded, "
-                         "json and second tmp mounts; distinct by hash of the case term; non-trivial = at least 4 entries",
+                         "json and second tmp mounts; in 1 case of 4 one more mount whose mount point extends the name of the output dir, of "
+                         "a directory of the tree or of another mount point without a slash (/ctr/outdir2, foo + foobar, /mnt/c1 + "
+                         "/mnt/c1-old; collection, or tmp with a host directory out<ext> next to out/) and links to the shorter "
+                         "path; distinct by hash of the case term; non-trivial = at least 4 entries",
                     assumptions=["the host has no /ctr, /mnt, /secret, /scratch or /tmp/x,/tmp/y paths (absolute link targets resolved "
-                                 "by the host kernel give ENOENT), and the parent of the output dir contains nothing else",
+                                 "by the host kernel give ENOENT), and the parent of the output dir contains nothing else "
+                                 "(but the generated directory out<ext> of the name-extension stratum, which is part of the case)",
                                  "block packing/Flush are not modelled: the saved manifest is read back through a collection "
                                  "filesystem and compared as a sorted (path, kind, bytes) listing",
                                  "writable collection mounts and tmp mounts nested below other paths are outside the model (Unmodelled)"])
